@@ -48,7 +48,12 @@ def main():
         name = os.path.basename(d.rstrip("/"))
         os.makedirs(os.path.join(wt, "out", name), exist_ok=True)
         if os.path.exists(os.path.join(d, "demo.py")):
-            sh(["cp", os.path.join(d, "demo.py"), os.path.join(wt, "out", name, "demo.py")])
+            import re
+
+            src = open(os.path.join(d, "demo.py")).read()
+            # some demonstrations hard-code the worktree they were written in
+            src = re.sub(r"/tmp/seed_\d+", wt, src)
+            open(os.path.join(wt, "out", name, "demo.py"), "w").write(src)
         demo = os.path.join(wt, "out", name, "demo.py")
         if os.path.exists(demo) and not a.skip_tests:
             rc0, o0 = sh([PY, demo], cwd=wt, timeout=900)
